@@ -204,6 +204,148 @@ pub fn feeny_spellings(p: &Prog) -> Option<Prog> {
     if changed { Some(q) } else { None }
 }
 
+// ------------------------------------------------------------------ control-flow / data-flow shapes
+
+fn fresh_label(consts: &mut Vec<Const>, counter: &mut usize) -> u16 {
+    *counter += 1;
+    consts.push(Const::Str(format!("shape:{}", counter)));
+    (consts.len() - 1) as u16
+}
+
+/// `goto L; label L` threaded between every two instructions (and before the first)
+pub fn thread_jumps(p: &Prog) -> Prog {
+    let mut q = p.clone();
+    let mut counter = 0usize;
+    let n = p.consts.len();
+    for ci in 0..n {
+        if let Const::Method { code, .. } = &p.consts[ci] {
+            let mut out: Vec<Ins> = vec![];
+            for ins in code {
+                let l = fresh_label(&mut q.consts, &mut counter);
+                out.push(Ins::Goto(l)); out.push(Ins::Label(l));
+                out.push(*ins);
+            }
+            if let Const::Method { code: c2, .. } = &mut q.consts[ci] { *c2 = out }
+        }
+    }
+    q
+}
+
+/// every literal is stored into a spare local, dropped, and read back
+pub fn literals_through_a_local(p: &Prog) -> Prog {
+    let mut q = p.clone();
+    for c in q.consts.iter_mut() {
+        if let Const::Method { arity, locals, code, .. } = c {
+            if *locals >= 60_000 { continue }
+            let spare = *arity as u16 + *locals;
+            let mut out = vec![];
+            for ins in code.iter() {
+                out.push(*ins);
+                if let Ins::Lit(_) = ins { out.push(Ins::SetLocal(spare)); out.push(Ins::Drop); out.push(Ins::GetLocal(spare)) }
+            }
+            *code = out;
+            *locals += 1;
+        }
+    }
+    q
+}
+
+fn label_name(p: &Prog, i: u16) -> Option<&str> { p.str_at(i) }
+
+/// compiler shape  `goto C; label B; body; label C; cond; branch B`
+/// becomes         `label T; cond; branch B; goto E; label B; body; goto T; label E`   (test first)
+pub fn loops_test_first(p: &Prog) -> Option<Prog> {
+    let mut q = p.clone();
+    let mut counter = 1000usize;
+    let mut changed = false;
+    let n = p.consts.len();
+    for ci in 0..n {
+        let code = match &p.consts[ci] { Const::Method { code, .. } => code.clone(), _ => continue };
+        let mut cur = code;
+        // rewrite innermost-first until no pattern is left (bounded)
+        for _ in 0..64 {
+            let mut found: Option<(usize, usize, usize)> = None; // (index of goto, index of label C, index of branch)
+            'outer: for i in 0..cur.len().saturating_sub(1) {
+                if let (Ins::Goto(c), Ins::Label(b)) = (cur[i], cur[i + 1]) {
+                    let (cn, bn) = match (label_name(&q, c), label_name(&q, b)) { (Some(x), Some(y)) => (x.to_string(), y.to_string()), _ => continue };
+                    // the label C and the closing `branch B`
+                    let lc = (i + 2..cur.len()).find(|j| matches!(cur[*j], Ins::Label(x) if label_name(&q, x) == Some(cn.as_str())));
+                    if let Some(lc) = lc {
+                        let br = (lc + 1..cur.len()).find(|j| matches!(cur[*j], Ins::Branch(x) if label_name(&q, x) == Some(bn.as_str())));
+                        if let Some(br) = br {
+                            // no other jump may target C or B (the compiler never emits one), and the segment must not contain another unconverted loop head
+                            let inner_loop = (i + 2..br).any(|j| j + 1 < cur.len() && matches!((cur[j], cur[j + 1]), (Ins::Goto(_), Ins::Label(_))) && j + 1 != lc);
+                            if inner_loop { continue 'outer }
+                            found = Some((i, lc, br));
+                            break;
+                        }
+                    }
+                }
+            }
+            let (g, lc, br) = match found { Some(f) => f, None => break };
+            let b = if let Ins::Label(b) = cur[g + 1] { b } else { unreachable!() };
+            let body: Vec<Ins> = cur[g + 2..lc].to_vec();
+            let cond: Vec<Ins> = cur[lc + 1..br].to_vec();
+            let t = fresh_label(&mut q.consts, &mut counter);
+            let e = fresh_label(&mut q.consts, &mut counter);
+            let mut out: Vec<Ins> = cur[..g].to_vec();
+            out.push(Ins::Label(t)); out.extend(cond); out.push(Ins::Branch(b)); out.push(Ins::Goto(e));
+            out.push(Ins::Label(b)); out.extend(body); out.push(Ins::Goto(t)); out.push(Ins::Label(e));
+            out.extend(cur[br + 1..].to_vec());
+            cur = out;
+            changed = true;
+        }
+        if let Const::Method { code: c2, .. } = &mut q.consts[ci] { *c2 = cur }
+    }
+    if changed { Some(q) } else { None }
+}
+
+/// compiler shape  `branch T; else; goto E; label T; then; label E`
+/// becomes         `branch T; goto F; label T; then; goto E; label F; else; label E`   (then first)
+pub fn conditionals_then_first(p: &Prog) -> Option<Prog> {
+    let mut q = p.clone();
+    let mut counter = 5000usize;
+    let mut changed = false;
+    let n = p.consts.len();
+    for ci in 0..n {
+        let code = match &p.consts[ci] { Const::Method { code, .. } => code.clone(), _ => continue };
+        let mut cur = code;
+        let mut done: Vec<String> = vec![];
+        for _ in 0..64 {
+            let mut found: Option<(usize, usize, usize, usize)> = None; // branch, goto E, label T, label E
+            for i in 0..cur.len() {
+                if let Ins::Branch(t) = cur[i] {
+                    let tn = match label_name(&q, t) { Some(x) => x.to_string(), None => continue };
+                    if done.contains(&tn) { continue }
+                    // forward conditional: label T lies ahead and is immediately preceded by `goto E`, label E lies after it
+                    let lt = (i + 1..cur.len()).find(|j| matches!(cur[*j], Ins::Label(x) if label_name(&q, x) == Some(tn.as_str())));
+                    if let Some(lt) = lt {
+                        if lt == 0 { continue }
+                        if let Ins::Goto(e) = cur[lt - 1] {
+                            let en = match label_name(&q, e) { Some(x) => x.to_string(), None => continue };
+                            let le = (lt + 1..cur.len()).find(|j| matches!(cur[*j], Ins::Label(x) if label_name(&q, x) == Some(en.as_str())));
+                            if let Some(le) = le { found = Some((i, lt - 1, lt, le)); done.push(tn); break }
+                        }
+                    }
+                }
+            }
+            let (br, ge, lt, le) = match found { Some(f) => f, None => break };
+            let else_part: Vec<Ins> = cur[br + 1..ge].to_vec();
+            let then_part: Vec<Ins> = cur[lt + 1..le].to_vec();
+            let e = if let Ins::Goto(e) = cur[ge] { e } else { unreachable!() };
+            let f = fresh_label(&mut q.consts, &mut counter);
+            let mut out: Vec<Ins> = cur[..=br].to_vec();
+            out.push(Ins::Goto(f)); out.push(cur[lt]); out.extend(then_part); out.push(Ins::Goto(e));
+            out.push(Ins::Label(f)); out.extend(else_part); out.push(cur[le]);
+            out.extend(cur[le + 1..].to_vec());
+            cur = out;
+            changed = true;
+        }
+        if let Const::Method { code: c2, .. } = &mut q.consts[ci] { *c2 = cur }
+    }
+    if changed { Some(q) } else { None }
+}
+
 pub const KNOBS: [&str; 14] = ["identity", "reverse-pool", "methods-first", "entry-first-with-return", "entry-last-with-return", "pad-pool", "private-constants",
     "labels:L<n>", "labels:reuse-other-names", "labels:non-ascii", "labels:compiler-like", "split-label-constants", "reverse-globals", "shift-locals"];
 
@@ -212,8 +354,13 @@ pub fn apply(p: &Prog, knob: usize) -> Option<Prog> {
         0 => p.clone(), 1 => reverse_pool(p), 2 => methods_first(p), 3 => entry_first(p), 4 => entry_with_return(p), 5 => pad_pool(p), 6 => private_constants(p),
         7 => rename_labels(p, 0), 8 => rename_labels(p, 1), 9 => rename_labels(p, 2), 10 => rename_labels(p, 3), 11 => split_label_constants(p),
         12 => reverse_globals(p), 13 => shift_locals(p, 3),
-        _ => return feeny_spellings(p),
+        14 => return feeny_spellings(p),
+        15 => thread_jumps(p), 16 => literals_through_a_local(p),
+        17 => return loops_test_first(p),
+        _ => return conditionals_then_first(p),
     })
 }
-pub const N_KNOBS: usize = 15; // 14 + feeny-spellings
-pub fn knob_name(k: usize) -> &'static str { if k < 14 { KNOBS[k] } else { "feeny-spellings" } }
+pub const N_KNOBS: usize = 19;
+pub fn knob_name(k: usize) -> &'static str {
+    match k { 0..=13 => KNOBS[k], 14 => "feeny-spellings", 15 => "jumps-threaded-everywhere", 16 => "literals-through-a-local", 17 => "loops-test-first", _ => "conditionals-then-first" }
+}
